@@ -1219,6 +1219,188 @@ def semantic_errors(rng, extra=0):
     return P
 
 
+# ------------------------------------------------------------------------------------------------
+# variables whose bounds already coincide when a product / quotient is built; products with a zero constant; cancellation
+# ------------------------------------------------------------------------------------------------
+READ_SEP = "\x1e"       # h_eval: what follows is given to a further read() call
+
+
+def text_arith(e):
+    """plain text of an arithmetic tree, every compound operand parenthesised"""
+    k = e[0]
+    if k == "id":
+        return ".".join(e[1])
+    if k == "int":
+        return e[1]
+    if k == "real":
+        return "%s.%s" % (e[1], e[2])
+    if k in ("minus", "plus"):
+        return "%s(%s)" % (OP_TEXT[k], text_arith(e[1]))
+    sub = lambda x: text_arith(x) if x[0] in ("id", "int", "real") else "(" + text_arith(x) + ")"
+    return (" " + OP_TEXT[k] + " ").join(sub(x) for x in e[1])
+
+
+def gen_fixed_arith(rng, depth, free, fixed, vals, allow_free=True):
+    """arithmetic tree over free variables, variables with coinciding bounds / declared constants (`fixed`, values in `vals`) and
+    literals, in which every product has at most ONE factor that mentions a free variable (in any position) and every divisor
+    mentions none and is not zero. -> (tree, mentions a free variable)"""
+    if depth <= 0 or rng.random() < 0.2:
+        c = rng.random()
+        if allow_free and free and c < 0.3:
+            return ("id", [rng.choice(free)]), True
+        if fixed and c < 0.75:
+            return ("id", [rng.choice(fixed)]), False
+        return rng.choice([("int", str(rng.choice([0, 1, 2, 2, 3, 5]))), ("real", str(rng.choice([0, 1, 2, 4])), rng.choice(["0", "5", "25"]))]), False
+    c = rng.random()
+    if c < 0.3:
+        kids = [gen_fixed_arith(rng, depth - 1, free, fixed, vals, allow_free) for _ in range(rng.choice([2, 2, 3]))]
+        return (rng.choice(["add", "sub"]), [k[0] for k in kids]), any(k[1] for k in kids)
+    if c < 0.7:
+        n = rng.choice([2, 2, 3, 3, 4])
+        pos = rng.randrange(n)          # the position of the factor that may be free: first, middle, last
+        kids = [gen_fixed_arith(rng, depth - 1, free, fixed, vals, allow_free and i == pos) for i in range(n)]
+        return ("mul", [k[0] for k in kids]), any(k[1] for k in kids)
+    if c < 0.92:
+        num = gen_fixed_arith(rng, depth - 1, free, fixed, vals, allow_free)
+        ds = []
+        for _ in range(rng.choice([1, 1, 2])):
+            for _ in range(50):
+                d, _f = gen_fixed_arith(rng, max(0, depth - 2), free, fixed, vals, False)
+                if eval_arith(d, vals) not in (None, 0):
+                    break
+            else:
+                d = ("int", "2")
+            ds.append(d)
+        return ("div", [num[0]] + ds), num[1]
+    t = gen_fixed_arith(rng, depth - 1, free, fixed, vals, allow_free)
+    return ("minus", t[0]), t[1]
+
+
+FIXED_TEMPLATES = ["2.0 * k", "k * 2.0", "2 * (k + 1) * 5", "(2 * k) + 1 - k", "x / k", "x * k", "k * x", "2 * k * x", "k * x * j", "x * (k + 1)",
+                   "(x + 1) * k", "k * j", "k / j", "x / k / 2", "x / (k * 2)", "c * k", "k * c * x", "(x + y) * k", "j * (x - y) * k", "k * k * k",
+                   "2 * (k + 1) * 5 * x", "(k - j) * x", "x * (k - k)", "n * x", "x * n * k", "n * k", "(x / j) * k", "-k * x", "k * -x"]
+
+
+def fixed_var_programs(rng, n_random):
+    """-> list of dicts {text, probe, expr | expr_text, names, tags}: the probe `v` is bound to a product / quotient some of whose
+    operands are VARIABLES WHOSE BOUNDS ALREADY COINCIDE when the expression is evaluated -- fixed by a constraint of an earlier
+    read() call, or (rule / constructor bodies) by the propagation that precedes their execution --, mixed with free variables and
+    declared constants. The expected value is computed from the values the solver reports for all variables."""
+    out = []
+    vals0 = {"k": Fraction(3), "j": Fraction(5, 2), "n": Fraction(0), "c": Fraction(2)}
+    fix0 = ["real k; k == 3.0;", "real j; j >= 2.5; j <= 2.5;", "int n; n == 0;"]
+    free0 = "real x; real y; x >= 1; y <= 4; real c = 2.0;"
+    ctxs = ["later-read", "rule", "ctor", "rule-later-read", "method"]
+
+    def wrap(ctx, fixdecl, freedecl, etext):
+        if ctx == "later-read":
+            return fixdecl + READ_SEP + freedecl + " real v; v == %s;" % etext
+        if ctx == "rule":
+            return fixdecl + " " + freedecl + " real v; predicate P() { v == %s; } goal g = new P();" % etext
+        if ctx == "ctor":
+            return fixdecl + READ_SEP + freedecl + " real v; class A { A() { v == %s; } } A a = new A();" % etext
+        if ctx == "rule-later-read":
+            return fixdecl + READ_SEP + freedecl + " real v; predicate P() { real w = %s; v == w; } goal g = new P();" % etext
+        return fixdecl + READ_SEP + freedecl + " real f() { return %s; } real v; v == f();" % etext
+    for i, t in enumerate(FIXED_TEMPLATES):
+        for ctx in ctxs:
+            out.append({"text": wrap(ctx, " ".join(fix0), free0, t), "probe": "v", "expr_text": t, "names": ["k", "j", "n", "c", "x", "y"],
+                        "tags": ["fixed-bounds", "fixed:" + ctx]})
+    for _ in range(n_random):
+        nf = rng.choice([1, 2, 3])
+        fixed, vals, decl = [], {}, []
+        for i in range(nf):
+            nm = "k%d" % i
+            v = Fraction(rng.choice([0, 1, 2, 3, 3, 5, 7, -2, -3]), rng.choice([1, 1, 1, 2, 4]))
+            style = rng.choice(["eq", "bounds", "int"])
+            if style == "int":
+                v = Fraction(rng.choice([0, 1, 2, 3, -4]))
+                decl.append("int %s; %s == %s;" % (nm, nm, "%d" % v if v >= 0 else "0 - %d" % -v))
+            else:
+                lit = "%d / %d" % (v.numerator, v.denominator) if v >= 0 else "0 - %d / %d" % (-v.numerator, v.denominator)
+                decl.append("real %s; %s == %s;" % (nm, nm, lit) if style == "eq" else "real %s; %s >= %s; %s <= %s;" % (nm, nm, lit, nm, lit))
+            fixed.append(nm)
+            vals[nm] = v
+        consts = []
+        for i in range(rng.choice([0, 1])):
+            nm = "c%d" % i
+            v = Fraction(rng.choice([0, 1, 2, 5]), rng.choice([1, 2]))
+            consts.append("real %s = %d / %d;" % (nm, v.numerator, v.denominator))
+            fixed.append(nm)
+            vals[nm] = v
+        free = ["x%d" % i for i in range(rng.choice([0, 1, 2]))]
+        fdecl = []
+        for x in free:
+            b = rng.choice(["none", "lower", "upper", "both"])
+            fdecl.append("real %s;" % x + (" %s >= 1;" % x if b in ("lower", "both") else "") + (" %s <= 9;" % x if b in ("upper", "both") else ""))
+        e, _ = gen_fixed_arith(rng, rng.choice([1, 2, 3]), free, fixed, vals)
+        if not any(op in sx_expr(e) for op in ("(mul", "(div")):
+            continue
+        ctx = rng.choice(ctxs)
+        out.append({"text": wrap(ctx, " ".join(decl), " ".join(consts + fdecl), text_arith(e)), "probe": "v", "expr_text": text_arith(e), "names": fixed + free,
+                    "tags": ["fixed-bounds", "fixed:" + ctx]})
+    return out
+
+
+def eval_text(t, vals):
+    """exact value (Fraction) of an arithmetic text over + - * / ( ) literals and names, names -> Fraction; None when undefined"""
+    t2 = re.sub(r'(?<![A-Za-z_0-9.])\d+(\.\d+)?', lambda m: 'F("%s")' % m.group(0), t)
+    try:
+        return eval(t2, {"F": Fraction, "__builtins__": {}}, dict(vals))
+    except (ZeroDivisionError, NameError, SyntaxError):
+        return None
+
+
+def reported_values(line):
+    """`OK solved=1 a=r:1/2 b=T ...` -> {name: Fraction} for the arithmetic values without infinitesimal part"""
+    d = {}
+    for kv in line.split(" ")[2:]:
+        if "=" in kv:
+            k, v = kv.split("=", 1)
+            if v.startswith("r:") and "," not in v:
+                n, dn = v[2:].split("/")
+                d[k] = Fraction(int(n), int(dn))
+    return d
+
+
+def zero_programs():
+    """-> list of (kind, program text, expected class 'OK1' | 'UNSAT', {probe: expected value text}): products of a NON-CONSTANT
+    expression with a constant that is exactly zero, the variables unbounded on one or both sides, then compared or queried; and
+    expressions whose variables cancel. All valid programs: value 0 (or the verdict when the comparison is false)."""
+    P = []
+    zeros = [("lit", "", "0"), ("real-lit", "", "0.0"), ("diff", "", "(3 - 3)"), ("real-diff", "", "(1.5 - 1.5)"), ("const-var", "real z0 = 0; ", "z0"),
+             ("const-expr", "real k = 3; ", "(k - 3)"), ("int-const", "int n0 = 0; ", "n0"), ("prod", "", "(0 * 7)"), ("neg", "", "-0.0")]
+    nons = [("var", "x"), ("sum", "(x + 1)"), ("two", "(x + y)"), ("lin", "(2 * x - y)"), ("neg", "-x"), ("scaled", "(x / 2)")]
+    bounds = [("unbounded", ""), ("lower", "x >= 1; "), ("upper", "x <= 9; "), ("both", "x >= 1; x <= 9; y >= 0 - 2; ")]
+    shapes = [("right", "%(n)s * %(z)s"), ("left", "%(z)s * %(n)s"), ("right-more", "%(n)s * %(z)s * 2"), ("middle", "2 * %(z)s * %(n)s"),
+              ("last", "3 * %(n)s * %(z)s"), ("plus", "%(n)s * %(z)s + w"), ("minus", "w - %(z)s * %(n)s")]
+    uses = [("field-leq", "real r = %s; r <= 5; real v; v == r + 1;", "OK1", {"v": 1, "r": 0}), ("eq0", "%s == 0; real v; v == 7;", "OK1", {"v": 7}),
+            ("sandwich", "real r = %s; r >= 0; r <= 0;", "OK1", {"r": 0}), ("probe", "real v; v == %s + 1;", "OK1", {"v": 1}),
+            ("geq1", "%s >= 1;", "UNSAT", {}), ("neq0", "%s != 0;", "UNSAT", {}), ("lt0", "%s < 0;", "UNSAT", {}), ("leq0", "%s <= 0; real v; v == 2;", "OK1", {"v": 2})]
+    i = 0
+    for zk, zdecl, z in zeros:
+        for nk, nx in nons:
+            bk, bdecl = bounds[i % len(bounds)]
+            sk, sh = shapes[i % len(shapes)]
+            uk, use, want, probes = uses[i % len(uses)]
+            i += 1
+            e = sh % {"n": nx, "z": z}
+            wdecl = "real w = 0; " if "w" in sh else ""
+            P.append(("zero-product:%s:%s:%s:%s:%s" % (zk, nk, bk, sk, uk), "real x; real y; " + bdecl + zdecl + wdecl + use % ("(" + e + ")"), want, probes))
+    P += [("zero-product:all-shapes", "real x; real y; real a = x * 0; real b = 0.0 * (x + 1); real k = 3; real c = k * (3 - 3); real z; real d = (x + y) * (2 - 2) + z; "
+           "a <= 5; b >= 0 - 5; c == 0; d == z; real v; v == a + b + c + 4;", "OK1", {"v": 4, "a": 0, "b": 0, "c": 0}),
+          ("zero-product:times-zero-then-divide", "real x; real r = x * 0 / 2; r == 0; real v; v == r + 3;", "OK1", {"v": 3}),
+          ("zero-product:in-rule", "real x; real v; predicate P() { v == x * 0 + 2; } goal g = new P();", "OK1", {"v": 2}),
+          ("zero-product:in-disjunct", "real x; real v; { v == x * (1 - 1) + 1; } or { v == 0 * x + 1; }", "OK1", {"v": 1})]
+    cancels = [("x-x", "x - x"), ("xy-x-y", "(x + y) - x - y"), ("2x-x-x", "2 * x - x - x"), ("sum-swap", "x + y - (y + x)"), ("scaled", "3 * (x - x)"),
+               ("halves", "x / 2 - 0.5 * x"), ("neg", "x + -x"), ("three", "x - y + y - x + 0")]
+    for j, (ck, c) in enumerate(cancels):
+        for uk, use, want, probes in uses:
+            bk, bdecl = bounds[(j + len(uk)) % len(bounds)]
+            P.append(("cancel:%s:%s:%s" % (ck, bk, uk), "real x; real y; " + bdecl + use % ("(" + c + ")"), want, probes))
+    return P
+
+
 def structural_programs(rng, extra=0):
     """-> list of (kind, program text, expected outcome class 'ERR' | 'UNSAT' | 'OK1'): modeling errors the front end accepts and
     the core has to reject with a reported error (ERR) or a verdict (UNSAT), next to valid programs of the same shapes (OK1).
